@@ -85,7 +85,7 @@ TARGETS = {
             T(B + 'var_at_level'), T(B + 'level_of_var'), T(B + 'var_levels'), T(B + 'var', B + 'var!body')],
     'C17': [T(B + 'find_or_add'), T(B + 'add_var'), T(B + '_check_var'), T(B + '_next_free_level'), T(B + 'var_at_level'),
             T(B + 'level_of_var'), T(B + 'var', B + 'var!body'), T('dd.bdd.rename'), T(B + '_next_free_int')]
-    + apply_targets(['not', 'and', 'ite', 'forall']) + PLUMBING[1:6]
+    + apply_targets(['not', 'and', 'ite', 'forall']) + PLUMBING[1:]
     + [T(AF + '__init__'), T(ABD + '_wrap'), T(ABD + '_add_int'), T(ABD + 'var'), T(ABD + 'ite'), T(ABD + 'quantify')] + aapply_targets(['!', '||', 'ite']),
     'C18': [T(B + 'succ')] + AVIEWS,
 }
